@@ -346,6 +346,9 @@ func orderPhase(run *evid.Run, thorough bool, sub map[*codec][]string, enumerate
 			o = "P:" + pan
 		}
 		x.k, x.base = maxKeysSeen, o
+		if !enumerated[x.c.name] { // the hook is not consulted: estimate the keys from the separators
+			x.k = strings.Count(x.s, ";") + strings.Count(x.s, ",") + 1
+		}
 		x.outs = []uint64{evid.Hash(o)}
 		if x.k > st.maxKeys {
 			st.maxKeys = x.k
